@@ -31,6 +31,11 @@ def check(repo: Repo, R) -> None:
     from .common import noreturn_set as _nrs
     R.run(c02.guard_inventory, repo, Retag(R, lambda r, k: "C10.5-both-sides-agree-on-members" if "replace_bundle_conn" in k and "member" in k else None,
                                     "a connected bundle with a surplus (or a missing) member is flattened onto the instance: the extra signal dangles, or a flattened port is left open"), _nrs(repo))
+    # "one scalar port per leaf signal of the definition": the flattener walks the per-kind views of the definition, so a
+    # member replaced by one of the other kind must leave its view
+    from . import c18 as _c18
+    R.run(_c18.check, repo, Retag(R, lambda r, k: "C10.6-definition-views-hold-current-members" if r.startswith("C18.1") and k.startswith("hdl21/bundle.py") else None,
+                                 "a member replaced by a member of the other kind stays in its per-kind view: the bundle port flattens to ports for leaves the definition no longer has"))
     R.floor("C10.1-portdir-flipped", 1)
     R.floor("C10.2-direction-visibility-table", 1)
     R.floor("C10.3-flip-parity", 4)
